@@ -203,8 +203,8 @@ def _names(exprs):
     return {e.name for e in exprs}
 
 
-def _envx(env):
-    return {_sym(k): v for k, v in env.items() if k != ACENT}
+def _envx(env, names=None):
+    return {_sym(k): v for k, v in env.items() if k != ACENT and (names is None or k in names)}
 
 
 def _tup(prog):
@@ -327,7 +327,8 @@ def _check_rsd(prog, objs, st, reach, vals0, F):
     """remove_symbol_definitions(symbols, statement) for every statement and every set of <=2 assigned
     symbols the statement does not read (the documented situation: the symbols were removed from it)"""
     n = len(prog)
-    assigned = sorted({_writes(s) for s in prog})
+    # named symbols: symbols defined by an Assignment (the documented domain)
+    assigned = sorted({_writes(s) for s in prog if not _is_ode(s)})
     symsets = [(a,) for a in assigned] + list(itertools.combinations(assigned, 2))
     count = 0
     for k in range(n):
@@ -425,7 +426,7 @@ def _check_program(prog, level='full'):
     low = _semantic_deps(prog, envs, sorted(inputs)) if piecewise else [set(d) for d in deps]
 
     # ---- full_expression ---------------------------------------------------------------------
-    envxs = [_envx(e) for e in envs]
+    envxs = [_envx(e, set(names) | {'A', 'Y', 'P', 'E', 'X'}) for e in envs]
     if has_ode:
         try:
             st.full_expression(_sym('Y'))
@@ -552,7 +553,7 @@ def _check_program(prog, level='full'):
             elif not has_ode:
                 fin = ref_exec(edited, ENV0)[1]
                 try:
-                    for nm in names:
+                    for nm in assigned:
                         got = _val(res.full_expression(_sym(nm)), envxs[0])
                         if got != fin[nm]:
                             F.add('reassign', CL_REASSIGN_VAL,
